@@ -196,7 +196,7 @@ def build(run: Run):
             # they run before NonStandardImports: they must leave the de-duplication set (and everything but iterator positions) alone
             cc.modifies = ["@iterator.pos"]
             for sp in cc.loops.values():
-                sp["modifies"] = ["@iterator.pos"]
+                sp["modifies"] = ["@iterator.pos"] + [m for m in sp["modifies"] if m.endswith("[]") and not m.startswith(("context.", "self."))]   # + its own local sets
                 sp["invariant"] = [x for x in sp["invariant"]]
         if fk is None:
             verify_keys.append(k)
